@@ -12,6 +12,15 @@ OP_NOTE = ("Trusted: TLC; the harness store (harness/modelstore) as an implement
            "implementation traces are TLC-simulated behaviours plus seeded random histories, not all histories.")
 
 CLAIMS = {
+    "C01": dict(level="model_checking", ref="DESIGN.md §3 C01",
+                text="Decision-table spec spec/Verifier.tla: every case = (abstract ID token over 13 claim dimensions incl. time offsets around every boundary, "
+                     "verifier configuration over offset / max iat age / max auth age / nonce / acr). TLC checks for every case that the chain of Check* calls "
+                     "(Verdicts) is sound (accept => the property sentence holds, loosely) and complete (sentence holds with margin => accept) - VerifierDesign; "
+                     "every exported case becomes a really signed JWT and a real rp.NewIDTokenVerifier, rp.VerifyIDToken / rp.VerifyTokens is called, and the "
+                     "monitor VerifierTrace evaluates the same two declarative rules and 'claims returned unchanged' on the observed outcome.",
+                technique="TLA+ decision-table spec model-checked with TLC; TLC-exported cases executed on the real verifier; observed outcomes judged by the TLA+ monitor",
+                note="Trusted: TLC; the concretisation of abstract tokens (harness/tbldrv/verifier.go). Time boundaries carry a 2 s either-verdict zone. "
+                     "Exhaustive within the deviation-bounded case domain of VerifierDesign_*.cfg, not over all tokens."),
     "C03": dict(level="model_checking", ref="DESIGN.md §3 C03",
                 text="(i) Redirect-URI decision table spec/RedirectURI.tla: every (registration, requested URI, response type, other request defect) case "
                      "- URIs as component records within two deviations of every registered URI / glob instance (quick) or the full component product "
